@@ -258,6 +258,21 @@ theorem cancel_shape : Gen.poolShape_cancel =
 theorem closeIdleConnections_shape : Gen.poolShape_CloseIdleConnections =
     ["lock", "scratch = copy of c.conns", "c.conns = c.conns[:0]", "unlock", "range scratch => CloseConn"] := by decide
 
+/-- transport.RoundTrip: after AcquireConn every way out passes through exactly one of CloseConn / ReleaseConn, or hands
+    the connection to the close callback of the streamed body (which does one of the two): no exit leaks the
+    connection's slot, and every error exit (write deadline, request write / flush error, read deadline, response read
+    error incl. ErrBodyTooLarge) CLOSES the connection — a connection on which a request or a response was cut short is
+    never pooled. -/
+theorem roundTrip_exits_close_or_release : Gen.rtShape_RoundTrip =
+    ["AcquireConn", "if err != nil | return",
+     "if err != nil | CloseConn", "if err != nil | return",
+     "if err != nil | CloseConn", "if err != nil | return",
+     "if err != nil | CloseConn", "if err != nil | return",
+     "if err != nil | CloseConn", "if err != nil | return",
+     "if customStreamBody && resp.bodyStream != nil | stream close callback installed",
+     "if customStreamBody && resp.bodyStream != nil | return",
+     "if closeConn | CloseConn", "else of closeConn | ReleaseConn", "return"] := by decide
+
 /-! ### non-vacuity -/
 
 /-- MaxConns = 1 with MaxConnWaitTimeout: a second request waits, gets the released connection, returns with it -/
